@@ -11,8 +11,8 @@ application beyond calling `step()`."
 
 This file proves the packet-layer content of that sentence on the composed system `Uflow.Sys`
 (`Lemmas/SysDefs.lean`: `PacketSender` + ghost datagram network + `PacketReceiver`; steps
-`enq | emit | deliver k | recv | ack k`, so a schedule is an arbitrary pattern of loss, duplication,
-reordering and delay of datagrams AND of acknowledgements). The blackout is the arbitrary schedule
+`enq | emit | deliver k | recv | ack k | sync | resync k`, so a schedule is an arbitrary pattern of
+loss, duplication, reordering and delay of datagrams, of acknowledgements AND of sync frames). The blackout is the arbitrary schedule
 `ops` that leads to the state `s`: every theorem below quantifies over EVERY reachable `s` — full
 packet window, exhausted allocation counter, every datagram lost, every acknowledgement lost, any
 mix of modes in flight, any id wrap position.
